@@ -1,6 +1,6 @@
 // TRUSTED: stand-in for std::num::NonZeroI32 (contract = std documentation).
 // `get() != 0` is the type's invariant; every exec constructor below demands it.
-#[derive(Clone, Copy, PartialEq, Eq, Structural)]
+#[derive(Clone, Copy, PartialEq, Eq, Structural, Debug)]
 pub struct NonZeroI32 { pub v: i32 }
 impl NonZeroI32 {
     pub open spec fn view(self) -> i32 { self.v }
